@@ -1,8 +1,8 @@
 (* C02 -- Function signatures equal CPython's view of the same definition.
    Property theorems only: each closed by [exact] of a lemma from Proofs/, followed by Print Assumptions. *)
 From Coq Require Import List ZArith String Bool Arith.
-From Verif Require Import Lib.Sexp Model.C02_kinds Gen.C02_tables Model.C02_params Model.C02_container Model.C02_scope
-  Proofs.C02_params Proofs.C02_container Proofs.C02_scope.
+From Verif Require Import Lib.Sexp Model.C02_kinds Gen.C02_tables Model.C02_params Model.C02_container Model.C02_scope Model.C02_tree
+  Proofs.C02_params Proofs.C02_container Proofs.C02_scope Proofs.C02_tree.
 Import ListNotations.
 Open Scope list_scope. Open Scope nat_scope.
 
@@ -329,3 +329,21 @@ Theorem C02_handle_function_ladder :
   end.
 Proof. exact handle_function_eq. Qed.
 Print Assumptions C02_handle_function_ladder.
+
+(* ===== several scopes in one module ===== *)
+
+(* The visitor's single traversal -- one mutable current scope, the parents on a stack -- leaves, for every tree of
+   nested class bodies, exactly the independent per-scope visits: the starting scope sees its own items with classes
+   as binders, the parent chain is restored, every class body is a visit from an empty class scope. *)
+Theorem C02_traversal_is_compositional :
+  forall l path sc log st fin,
+  run_events (events l) (mkM (mkFrame path sc log) st fin) =
+  mkM (mkFrame path (visit_items (direct_items l) sc) (log ++ visit_log (direct_items l) sc)) st (fin ++ sub_frames path l).
+Proof. exact traversal_is_compositional. Qed.
+Print Assumptions C02_traversal_is_compositional.
+
+Theorem C02_class_body_context_free :
+  forall id n body path pre post,
+  In (scope_frame (child path n) (mkScope true [] []) body) (sub_frames path (pre ++ SClass id n body :: post)).
+Proof. exact class_body_context_free. Qed.
+Print Assumptions C02_class_body_context_free.
